@@ -34,11 +34,21 @@ def generate(rng, tier, gen_text, parse_opts):
             add(text, popt, ["sort", o, rng.random() < 0.5])
         add(text, popt, ["write", rng.choice([None, "auto", 7])])
         add(text, popt, ["deepcopy", rng.choice(["lib", "blocks", "block"]), rng.randrange(8)])
+    # the REAL shipped block middlewares against their body models (Model/HeapBodies.v), copy and in-place mode
+    import props.c07_bodies as B
+    for _ in range(4 if quick else 60):
+        for spec in B.block_specs():
+            text = gen_text(rng)
+            popt = B.parse_opt_for(spec, rng)
+            for inplace in (False, True):
+                add(text, popt, ["shipped", inplace, spec])
     for _ in range(100 if quick else 4000):
         st = []
         for _ in range(rng.randint(2, 3)):
             r = rng.random()
-            if r < 0.55:
+            if r < 0.3:
+                st.append(["shipped", rng.random() < 0.4, rng.choice(B.block_specs())])
+            elif r < 0.55:
                 st.append(["block", rng.random() < 0.4, rng.randrange(PROBES)])
             elif r < 0.65:
                 st.append(["library", rng.random() < 0.4])
@@ -151,6 +161,9 @@ def consts():
     return [HS.atom_code(C_CONST), HS.atom_code(S_PROBE), HS.atom_code(S_DUP)]
 
 
+SKIP = []     # set by a stage whose arguments cannot be tabulated (the case is then checked by the oracle streams only)
+
+
 def run_stage(st, lib):
     """run one real stage on lib; returns (result library, model stage sx)"""
     import heapsnap as HS
@@ -165,6 +178,14 @@ def run_stage(st, lib):
     if k == "resolve":
         sx = [2, int(st[1]), bare_atoms(lib), HS.atom_code("ResolveStringReferences")]
         return M.ResolveStringReferencesMiddleware(allow_inplace_modification=st[1]).transform(lib), sx
+    if k == "shipped":
+        import props.c07 as P
+        import props.c07_bodies as B
+        mw = B.make_mw(st[2], st[1])
+        sx, skip = B.shipped_sx(st[2], mw, lib)
+        if skip:
+            SKIP.append(True)
+        return mw.transform(lib), [4, int(st[1]), sx]
     if k == "sort":
         order = BLOCK_ORDERS[st[1]]
         sx = [3, ref_perm(lib.blocks, order, st[2])]
@@ -181,6 +202,7 @@ def impl(case, parse):
     inp = case["input"]
     op = inp["op"]
     rec = {"key": json.dumps([inp["text"], inp["parse"], op]), "tags": []}
+    del SKIP[:]
     try:
         lib = parse(inp["text"], inp["parse"])
     except Exception as e:  # noqa: BLE001
@@ -205,6 +227,15 @@ def impl(case, parse):
     elif op[0] == "resolve":
         sx_in = [162, int(op[1]), bare_atoms(lib), HS.atom_code("ResolveStringReferences"), heap, lib_id]
         r = implutil.guarded(lambda: [run_stage(op, lib)[0]])
+    elif op[0] == "shipped":
+        import props.c07 as P
+        import props.c07_bodies as B
+        mw = B.make_mw(op[2], op[1])
+        spec_sx, skip = B.shipped_sx(op[2], mw, lib)
+        if skip:
+            SKIP.append(True)
+        sx_in = [167, int(op[1]), spec_sx, heap, lib_id]
+        r = implutil.guarded(lambda: [mw.transform(lib)])
     elif op[0] == "sort":
         sx_in = [163, ref_perm(lib.blocks, BLOCK_ORDERS[op[1]], op[2]), heap, lib_id]
         r = implutil.guarded(lambda: [run_stage(op, lib)[0]])
@@ -238,10 +269,18 @@ def impl(case, parse):
     rec["sx_in"] = sx_in
     rec["oracle"] = None
     rec["nontrivial"] = n_in > 4
+    uses_shipped = op[0] == "shipped" or (op[0] == "stack" and any(s[0] == "shipped" for s in op[1]))
+    if SKIP:
+        rec["skip"] = True
+        rec["tags"].append("heap_skip_untabulated")
     if r[0] == "exc":
         rec["sx_out"] = implutil.r_exc(r[1])
         rec["summary"] = "raised " + r[2]
         rec["tags"].append("heap_raised_" + r[2])
+        if uses_shipped:
+            # a shipped body raising on values of the wrong type (e.g. RemoveEnclosing on a list) is not C07's subject and
+            # the model cannot name the exception class: not compared (the oracle streams check the input is intact)
+            rec["skip"] = True
         return rec
     final, out_roots = HS.final_view(nb, n_in, r[1])
     rec["sx_out"] = implutil.r_ok([final, out_roots])
@@ -251,9 +290,19 @@ def impl(case, parse):
         shared = sum(1 for i in HS.reachable(r[1]) if i in nb.num and nb.num[i] <= n_in)
     mode = {"block": lambda: "inplace" if op[1] else "copy", "library": lambda: "inplace" if op[1] else "copy",
             "resolve": lambda: "inplace" if op[1] else "copy", "sort": lambda: "copy", "write": lambda: "copy",
-            "deepcopy": lambda: "copy",
+            "deepcopy": lambda: "copy", "shipped": lambda: "inplace" if op[1] else "copy",
             "stack": lambda: "inplace" if all(s[0] != "sort" and s[1] for s in op[1]) else
             ("copy" if any(s[0] == "sort" or not s[1] for s in op[1][-1:]) and all(not (s[0] == "block" and s[2] == 7) for s in op[1]) else "mixed")}[op[0]]()
     rec["tags"].append("heap_%s_%s_%s" % (op[0], mode, "shares" if shared else "noshare"))
+    if op[0] == "shipped":
+        rec["tags"].append("shipped_%s_%s" % (op[2][0], mode))
+        n_err_in = sum(1 for x in nb.objs[:n_in] if type(x).__name__ == "MiddlewareErrorBlock")
+        n_err = sum(1 for x in nb.objs if type(x).__name__ == "MiddlewareErrorBlock")
+        if n_err > n_err_in and op[1]:          # in-place mode: no copies, so a new one was made by the body
+            rec["tags"].append("shipped_%s_new_error_block" % op[2][0])
+        if op[2][0].startswith("Latex") and any(type(getattr(x, "_value", None)).__name__ == "NameParts" for x in nb.objs[:n_in]):
+            rec["tags"].append("shipped_latex_on_nameparts_value")
+        if final[:n_in] != heap:
+            rec["tags"].append("shipped_%s_input_changed" % mode)
     rec["summary"] = "n_in=%d n_out=%d shared=%d" % (n_in, len(final), shared)
     return rec
